@@ -46,6 +46,10 @@ def gen(rng, tier):
         yield "sw all ver %s -" % hx(raw)
         yield "swn all ver %s -" % hx(raw)             # without the pool of released hash objects every hash is an allocation
         yield "swn %s sig %s" % (every(600), hx(raw))
+        if i % 3 != 2:
+            # policies that need the publications file, which this context cannot fetch: rule results with status messages, fallbacks
+            yield "sw all verk %s -" % hx(raw)
+            yield "sw %s verg %s -" % (every(400), hx(raw))
         yield "sw all ver %s %s" % (hx(raw), hx(s.chains[0].input_hash if not s.rfc else s.rfc.input_hash))
         bad = s.clone(); h = bytearray(bad.chains[-1].links[-1].data); h[-1] ^= 1
         if bad.chains[-1].links[-1].kind == "h":
@@ -61,6 +65,9 @@ def gen(rng, tier):
             ver = rng.choice([1, 2])
             yield "sw %s ext %s %d %d %s %s" % (every(600), hx(raw), p, ver, hx(b"anon"), hx(C08.reply(ver, 1, 0, C08.new_chain(rng, s, t0, p, root))))
             yield "sw all ext %s %d %d %s %s" % (hx(raw), p, ver, hx(b"anon"), hx(C08.reply(ver, 1, 0x101, None)))      # the extender refuses
+            gc = C08.new_chain(rng, s, t0, p, root)
+            yield "sw %s extp %s %d %d %s %s %s" % (every(500), hx(raw), p, ver, hx(b"anon"), hx(C08.reply(ver, 1, 0, gc)), hx(C08.pubrec(p, gc.root())))
+            yield "sw all axh %s" % hx(raw)
             same = C08.new_chain(rng, s, t0, s.cal.pub_time, root)
             yield "sw %s vcal %s - %d %s %s" % (every(600), hx(raw), ver, hx(b"anon"), hx(C08.reply(ver, 1, 0, same)))
             yield "swn %s vcal %s - %d %s %s" % (every(600), hx(raw), ver, hx(b"anon"), hx(C08.reply(ver, 1, 0, same)))
